@@ -12,6 +12,8 @@ for pid in sorted(registry.CHECKS):
         print('regenerating generated model for', pid, flush=True)
         mod.regenerate(None)
 targets = ['Props/%s.vo' % pid for pid in sorted(registry.CHECKS)]
+# further statement files of a claimed property (Props/<Cxx>gen.v: sentences about the model generated from the source)
+targets += ['Props/%sgen.vo' % pid for pid in sorted(registry.CHECKS) if os.path.exists(os.path.join(common.COQ, 'Props', pid + 'gen.v'))]
 ok, log = common.coq_make(targets, timeout=3000)
 print(log[-4000:])
 g = common.gate_scan()
